@@ -87,6 +87,9 @@ def main():
              "kind_free_text": "contract table of memory-indexing primitives; TLC-enumerated call space; session trace validation"},
             {"name": "ctx", "path": "/verif/spec/Ctx.tla", "serves_properties": ["C13"],
              "kind_free_text": "model of context isolation; pthread harness + trace validation (sampled OS schedules)"},
+            {"name": "codec", "path": "/verif/spec/Codec.tla", "serves_properties": ["C19"], "kind_free_text": "index-arithmetic specs of codecs / accessors, strict JSON and CSV decoders in TLA+; trace validation"},
+            {"name": "equiv-map", "path": "/verif/spec/Equiv.tla", "serves_properties": ["C15"], "kind_free_text": "graph equality, equivalence laws, finite-map model of hash tables; trace validation"},
+            {"name": "import", "path": "/verif/spec/Import.tla", "serves_properties": ["C14"], "kind_free_text": "set algebra of R7RS import sets and library instantiation; TLC as case generator; trace validation"},
             {"name": "sched", "path": "/verif/spec/Sched.tla", "serves_properties": ["C11"],
              "kind_free_text": "TLA+ transcription of the green-thread scheduler and SRFI 18 primitives; MC with liveness; trace validation under forced time slices"},
         ],
@@ -106,7 +109,7 @@ def main():
 
 
 NA = {}
-APPROVED = ["C11", "C03", "C05", "C06", "C09", "C01", "C13", "C07"]
+APPROVED = ["C11", "C03", "C05", "C06", "C09", "C01", "C13", "C07", "C19", "C15", "C14"]
 
 if __name__ == "__main__":
     main()
